@@ -22,6 +22,9 @@ type LoopSpec struct {
 	Ord       int
 	Invs      []Clause
 	Decreases []*Expr
+	// IterEnsures: postconditions of one loop iteration, checked at every back edge with old() = the
+	// state at the loop header of that iteration.  An edge where a clause's names do not resolve is skipped.
+	IterEnsures []Clause
 }
 
 // GhostAssign is `name = e` or `name[k] = e` on a ghost component.
@@ -57,6 +60,9 @@ type FuncSpec struct {
 	Where    string
 	// Props: property ids this function's obligations are attributed to (tag `props C04 C05`)
 	Props []string
+	// Safety: property ids that the function's unlabelled safety obligations (nil, bounds, panics, channel
+	// state, frame) are attributed to; defaults to Props
+	Safety []string
 	// Decreases for recursive functions
 	Decreases []*Expr
 	Ats       []*AtSpec
@@ -185,8 +191,8 @@ func splitTop(s string, sep byte) []string {
 var topKeywords = map[string]bool{"sort": true, "fun": true, "def": true, "rec": true, "macro": true, "const": true, "ghost": true, "axiom": true,
 	"lemma": true, "func": true, "extern": true, "iface": true, "functype": true, "chantype": true}
 var clauseKeywords = map[string]bool{"requires": true, "ensures": true, "modifies": true, "loop": true, "invariant": true,
-	"decreases": true, "pure": true, "flag": true, "props": true, "induct": true, "inv": true,
-	"at": true, "assert": true, "ghostset": true, "rely": true, "onsend": true, "onrecv": true, "assume": true}
+	"decreases": true, "pure": true, "flag": true, "props": true, "safety": true, "induct": true, "inv": true,
+	"at": true, "assert": true, "iter_ensures": true, "ghostset": true, "rely": true, "onsend": true, "onrecv": true, "assume": true}
 
 type rawItem struct {
 	lines []string // logical lines, continuation merged
@@ -499,6 +505,15 @@ func (sp *Specs) ParseSpecText(path, text string, raw bool) error {
 			} else {
 				curChan.OnRecv = append(curChan.OnRecv, ga)
 			}
+		case "iter_ensures":
+			if curLoop == nil {
+				return fmt.Errorf("%s: iter_ensures outside a loop", where)
+			}
+			c, err := parseClause(rest)
+			if err != nil {
+				return err
+			}
+			curLoop.IterEnsures = append(curLoop.IterEnsures, c)
 		case "decreases":
 			var es []*Expr
 			for _, part := range splitTop(rest, ',') {
@@ -556,6 +571,10 @@ func (sp *Specs) ParseSpecText(path, text string, raw bool) error {
 				v = strings.Join(parts[1:], " ")
 			}
 			curF.Flags[parts[0]] = v
+		case "safety":
+			if curF != nil {
+				curF.Safety = append(curF.Safety, strings.Fields(rest)...)
+			}
 		case "props":
 			if curF != nil {
 				curF.Props = append(curF.Props, strings.Fields(rest)...)
